@@ -116,7 +116,7 @@ PROOFS = [
     Proof('extract_front/copy', 'iov.c', 'h_extract_front_copy', kind='L', min_obligations=10, **CV),
     Proof('extract_front/iov', 'iov.c', 'h_extract_front_iov', kind='L', min_obligations=10, **CV),
     Proof('extract_back/discard', 'iov.c', 'h_extract_back_discard', kind='L', min_obligations=10, tier='thorough', **CV),
-    # extract_back(bytes, buf) and memcpy_iov: contracts written (iov.c.in) but no back end finished within 25 min -> not listed
+    # extract_back(bytes, buf) and memcpy_iov: cvc5 at 1024 elements did not finish; cadical does at 16 (quick) / 64 (thorough) elements: see below
     Proof('extract_front_continuous', 'iov.c', 'h_extract_front_continuous', kind='L', min_obligations=10, **CV),
     Proof('extract_back_continuous', 'iov.c', 'h_extract_back_continuous', kind='L', min_obligations=10, **CV),
     # slice: contract written in iov.c.in (two loops); cvc5 did not finish in 15 min -> not listed (see DESIGN §6 C14)
@@ -125,6 +125,12 @@ PROOFS = [
     Proof('bounded/extract_back_copy_n2', 'iov.c', 'h_extract_back_copy', kind='B', backend='cadical', defines=['NMAX=2', 'BOUNDED_LOOPS'], unwind=5, bound='at most 2 elements, any lengths and byte count', timeout=1800, tier='thorough', checks=CHECKS),
     Proof('bounded/slice_n3', 'iov.c', 'h_slice', kind='B', backend='cadical', defines=['NMAX=3', 'BOUNDED_LOOPS'], unwind=6, bound='at most 3 source elements and 3 output slots, any lengths / offset / count', timeout=3000, tier='thorough', checks=CHECKS),
     Proof('bounded/memcpy_iov_n2', 'iov.c', 'h_memcpy_iov', kind='B', backend='cadical', defines=['NMAX=2', 'BOUNDED_LOOPS'], unwind=8, bound='at most 2 destination and 2 source elements, any lengths and byte count', timeout=3600, tier='thorough', checks=CHECKS),   # ~48 min
+    Proof('memcpy_iov', 'iov.c', 'h_memcpy_iov', kind='L', min_obligations=10, backend='cadical', defines=['NMAX=16'], timeout=1800, checks=CHECKS,
+          bound='at most 16 destination and 16 source elements (input-size bound; the loop is closed by its invariant for every iteration), any lengths, 0-element views included'),
+    Proof('memcpy_iov_n64', 'iov.c', 'h_memcpy_iov', kind='L', min_obligations=10, backend='cadical', defines=['NMAX=64'], timeout=3600, tier='thorough', checks=CHECKS,
+          bound='at most 64 + 64 elements (input-size bound), any lengths'),
+    Proof('extract_back/copy', 'iov.c', 'h_extract_back_copy', kind='L', min_obligations=10, backend='cadical', defines=['NMAX=16'], timeout=2400, checks=CHECKS,
+          bound='at most 16 elements (input-size bound; the loop is closed by its invariant), any lengths and byte count'),
     Proof('iov_iterator/ctor', 'iov.c', 'h_it_ctor', kind='L', min_obligations=4, **CV),
     Proof('lemma/pre_mono', 'iov.c', 'lemma_pre_mono', kind='L', min_obligations=3, **CV),
 ]
